@@ -66,6 +66,7 @@ inductive Val where
 
 inductive Exc where
   | valueError | typeError | keyError | indexError | assertionError | attributeError
+  | operationalError          -- the database refuses a statement
 deriving Repr, DecidableEq
 
 inductive R (α : Type) where
@@ -231,6 +232,8 @@ def pyCmp : CmpOp → Val → Val → R Val
   | .ge, .str a, .str b => .ok (.bool (!strLt a b))
   | .isIn, .str t, .str s => .ok (.bool (strIn t s))
   | .notIn, .str t, .str s => .ok (.bool (!strIn t s))
+  | .isIn, .str k, .dict d => .ok (.bool (aget (DKey.str k) d).isSome)
+  | .notIn, .str k, .dict d => .ok (.bool (!(aget (DKey.str k) d).isSome))
   | .isIn, x, .tuple vs => (ofOpt (anyEq x vs)).bind fun r => .ok (.bool r)
   | .notIn, x, .tuple vs => (ofOpt (anyEq x vs)).bind fun r => .ok (.bool (!r))
   | .isIn, x, .list vs => (ofOpt (anyEq x vs)).bind fun r => .ok (.bool r)
@@ -245,6 +248,8 @@ def pyCmp : CmpOp → Val → Val → R Val
 @[simp] theorem pyCmp_ge (a b : Int) : pyCmp .ge (.int a) (.int b) = .ok (.bool (a ≥ b)) := rfl
 @[simp] theorem pyCmp_lt (a b : Int) : pyCmp .lt (.int a) (.int b) = .ok (.bool (a < b)) := rfl
 @[simp] theorem pyCmp_gt_str (a b : Str) : pyCmp .gt (.str a) (.str b) = .ok (.bool (strLt b a)) := rfl
+@[simp] theorem pyCmp_in_dict (k : Str) (d : List (DKey × Val)) :
+    pyCmp .isIn (.str k) (.dict d) = .ok (.bool (aget (DKey.str k) d).isSome) := rfl
 @[simp] theorem pyCmp_in_tuple (x : Val) (vs : List Val) :
     pyCmp .isIn x (.tuple vs) = (ofOpt (anyEq x vs)).bind fun r => .ok (.bool r) := by
   cases x <;> rfl
@@ -553,6 +558,7 @@ inductive Expr where
   | str (s : Str)
   | ty (name : String)
   | cls (id : Nat)
+  | glob (name : String)                                 -- an imported module constant (`events.CreateTableSignal`)
   | attr (e : Expr) (a : String)
   | getattrD (e : Expr) (a : String) (d : Expr)
   | tuple (es : Exprs)
@@ -579,6 +585,7 @@ inductive Expr where
   | scall (after : Nat) (m : Nat) (args : Exprs)         -- `super(after, self).m(args)`; `self` is local 0
   | dcall (c : Nat) (m : Nat) (args : Exprs)             -- `C.m(args)` (args include self)
   | fcall (f : Nat) (args : Exprs)                       -- a module-level function of the program
+  | callVal (f : Expr) (args : Exprs)                    -- a call of a value held by a local (`func(cls, conn)`)
   | comp (x : Nat) (it : Expr) (cond : Expr) (body : Expr)   -- `[body for x in it if cond]`
   | reSubF (p : RePat) (f : Nat) (s : Expr)              -- `RE.sub(f, s)`, `f` a module-level function
   | reSubL (p : RePat) (x : Nat) (body : Expr) (s : Expr)    -- `RE.sub(lambda x: body, s)`
@@ -590,6 +597,7 @@ end
 mutual
 inductive Stmt where
   | assign (x : Nat) (e : Expr)
+  | assignTup (xs : List Nat) (e : Expr)                 -- `a, b = e`
   | setAttr (x : Nat) (a : String) (e : Expr)            -- `x.a = e`, rebinding the local `x`
   | append (x : Nat) (e : Expr)                          -- `x.append(e)`, rebinding the local `x`
   | ite (c : Expr) (t e : Block)
@@ -674,6 +682,7 @@ def Expr.eval (call : Callee → List Val → R Val) (I : Iface) (env : Env) : E
   | .str s => .ok (.str s)
   | .ty n => .ok (.ty n)
   | .cls c => .ok (.cls c)
+  | .glob name => I.ext name []
   | .attr e a => (e.eval call I env).bind fun v => attrOf I v a
   | .getattrD e a d => (e.eval call I env).bind fun v => (d.eval call I env).bind fun dv => getattrD I v a dv
   | .tuple es => (es.eval call I env).bind fun vs => .ok (.tuple vs)
@@ -704,6 +713,7 @@ def Expr.eval (call : Callee → List Val → R Val) (I : Iface) (env : Env) : E
       (selfCls env).bind fun c => (ofOpt (env 0)).bind fun self => call (.super after c m) (self :: as)
   | .dcall c m args => (args.eval call I env).bind fun as => call (.direct c m) as
   | .fcall f args => (args.eval call I env).bind fun as => call (.func f) as
+  | .callVal f args => (f.eval call I env).bind fun fv => (args.eval call I env).bind fun as => I.ext "<call>" (fv :: as)
   | .comp x it cond body => (it.eval call I env).bind fun v => (ofOpt (iterOf v)).bind fun l =>
       (filterMapR (compStep x (fun env' => cond.eval call I env') (fun env' => body.eval call I env') env) l).bind
         fun r => .ok (.list r)
@@ -774,6 +784,17 @@ def setAttrVal (a : String) (v : Val) : Val → Option Val
 def setAttrOf (env : Env) (x : Nat) (a : String) (v : Val) : Option Env :=
   ((env x).bind (setAttrVal a v)).map (env.put x)
 
+def bindAll (env : Env) : List Nat → List Val → Option Env
+  | [], [] => some env
+  | x :: xs, v :: vs => bindAll (env.put x v) xs vs
+  | _, _ => Option.none
+
+/-- `a, b = v` -/
+def unpackOf (env : Env) (xs : List Nat) : Val → Option Env
+  | .tuple vs => bindAll env xs vs
+  | .list vs => bindAll env xs vs
+  | _ => Option.none
+
 /-- `x.append(v)` -/
 def appendOf (env : Env) (x : Nat) (v : Val) : Option Env :=
   match env x with
@@ -789,6 +810,7 @@ def handle (r : Res) (exc : Exc) (h : Env → Res) : Res :=
 mutual
 def Stmt.exec (call : Callee → List Val → R Val) (I : Iface) (env : Env) : Stmt → Res
   | .assign x e => withR env (e.eval call I env) fun v => .norm (env.put x v)
+  | .assignTup xs e => withR env (e.eval call I env) fun v => normOpt (unpackOf env xs v)
   | .setAttr x a e => withR env (e.eval call I env) fun v => normOpt (setAttrOf env x a v)
   | .append x e => withR env (e.eval call I env) fun v => normOpt (appendOf env x v)
   | .ite c t e => withR env (c.eval call I env) fun v => if truthy v then t.exec call I env else e.exec call I env
